@@ -31,7 +31,7 @@ PNext ==
   \* (bound variables over singleton sets: each random choice is made exactly once per step; a LET definition
   \*  would be re-evaluated -- and re-drawn -- at every occurrence)
   /\ \E a \in {RandomElement(PRegs)} : \E b \in {RandomElement(PRegs)} : \E d \in {RandomElement(PRegs)} :
-     \E form \in {RandomElement(0..40)} : \E kind \in {RandomElement(1..16)} :
+     \E form \in {RandomElement(0..40)} : \E kind \in {RandomElement(1..19)} :
      \E k \in {RandomElement(1..Len(Scalars))} : \E r0 \in {RandomElement(0..24)} :
         CASE kind \in {1, 2} -> Produce([op |-> "add", a |-> a, b |-> b, dst |-> d, form |-> form], d, EAdd(preg[a], preg[b]))
           [] kind = 3 -> Produce([op |-> "sub", a |-> a, b |-> b, dst |-> d, form |-> form], d, ESub(preg[a], preg[b]))
@@ -51,6 +51,14 @@ PNext ==
                /\ preg' = IF r.ok THEN [preg EXCEPT ![d] = r.pt] ELSE preg
                /\ hist' = Append(hist, Rec2([op |-> "dec", dst |-> d, form |-> form, bytes |-> bytes],
                                             IF r.ok THEN [ok |-> TRUE, err |-> "", enc |-> bytes] ELSE [ok |-> FALSE, err |-> r.err]))
+          [] kind = 17 -> LET srcs == CASE form % 3 = 0 -> <<a, b>> [] form % 3 = 1 -> <<a, b, d, a>> [] OTHER -> <<>> IN
+               Produce([op |-> "sum", srcs |-> srcs, dst |-> d, form |-> form], d, ESum([i \in 1..Len(srcs) |-> preg[srcs[i]]]))
+          [] kind = 18 -> LET srcs == IF form % 2 = 0 THEN <<a, b>> ELSE <<a, b, a>>
+                              ks == [i \in 1..Len(srcs) |-> Scalars[((k + i) % Len(Scalars)) + 1]] IN
+               Produce([op |-> "msm", srcs |-> srcs, ks |-> [i \in 1..Len(ks) |-> BNPad(ks[i], 32)], dst |-> d, form |-> form], d,
+                       ESum([i \in 1..Len(srcs) |-> SMul(NMod(ks[i], RReal), preg[srcs[i]])]))
+          [] kind = 19 -> LET x == FOfNat(r0 * (form + 1)) y == FOfNat(r0 + form) IN
+               Produce([op |-> "h2c", dst |-> d, bytes |-> x, bytes2 |-> y], d, EAdd(ElligatorSpec(x), ElligatorSpec(y)))
           [] kind = 13 -> Observe([op |-> "enc", a |-> a, form |-> form], [out |-> EncOf(preg[a])])
           [] kind \in {14, 15} -> Observe([op |-> "eq", a |-> a, b |-> b, form |-> form], [out |-> SameElement(preg[a], preg[b])])
           [] OTHER -> Observe([op |-> "isid", a |-> a, form |-> form], [out |-> (preg[a][1] = NZero)])
